@@ -48,6 +48,7 @@ type Cfg struct {
 	Seed      int    `json:"seed"`
 	Sessions  int    `json:"sessions,omitempty"` // > 1: several clients at once (C17)
 	Stall     string `json:"stall,omitempty"`    // the terminating server's consumer is stuck in a handler of this kind
+	Idle      int    `json:"idle,omitempty"`     // ms of silence between two phases of traffic (longer than the TCP read poll)
 }
 
 type Case struct {
@@ -400,10 +401,15 @@ func Run(c Case) int {
 	var wg sync.WaitGroup
 	stopSending := make(chan struct{})
 	var sentCount int32
+	sendTimeout := 10 * time.Second
+	if cfg.Idle > 0 {
+		sendTimeout = 2 * time.Second // (long gone by the time the second phase starts)
+	}
+	phase := "g"
 	run := func(sd side, idx int) {
 		defer wg.Done()
-		g := sd.name + ".g" + strconv.Itoa(idx)
-		srng := rand.New(rand.NewSource(int64(cfg.Seed)*31 + int64(idx)*101 + int64(len(sd.name))))
+		g := sd.name + "." + phase + strconv.Itoa(idx)
+		srng := rand.New(rand.NewSource(int64(cfg.Seed)*31 + int64(idx)*101 + int64(len(sd.name)) + int64(len(phase))))
 		for i := 1; i <= cfg.Count; i++ {
 			select {
 			case <-stopSending:
@@ -416,7 +422,7 @@ func Run(c Case) int {
 			}
 			body := payload(cfg.Payload, srng)
 			l.log(Event{K: "sendcall", G: g, I: i, Kind: kind})
-			sctx, scancel := context.WithTimeout(ctx, 10*time.Second)
+			sctx, scancel := context.WithTimeout(ctx, sendTimeout)
 			err := sendOne(sctx, sd.s, kind, g, i, body)
 			scancel()
 			if err != nil {
@@ -466,6 +472,39 @@ func Run(c Case) int {
 			}
 			last = n
 			time.Sleep(30*time.Millisecond + 4*delay)
+		}
+		if cfg.Idle > 0 {
+			// nothing for longer than the transport's read poll, then traffic again: what was sent in the
+			// second phase is owed just like the first
+			time.Sleep(time.Duration(cfg.Idle) * time.Millisecond)
+			phase = "hh"
+			var wg2 sync.WaitGroup
+			// one direction only: the receiving side has not sent anything since before the silence
+			for i := 1; i <= cfg.Senders; i++ {
+				wg.Add(1)
+				wg2.Add(1)
+				if cfg.Seed%2 == 0 {
+					go func(i int) { defer wg2.Done(); run(side{name: "C", s: cc}, i) }(i)
+				} else {
+					go func(i int) { defer wg2.Done(); run(side{name: "S", s: sc}, i) }(i)
+				}
+			}
+			done2 := make(chan struct{})
+			go func() { wg2.Wait(); close(done2) }()
+			select {
+			case <-done2:
+			case <-time.After(30 * time.Second):
+			}
+			dl2 := time.Now().Add(8 * time.Second)
+			last2 := int32(-1)
+			for time.Now().Before(dl2) {
+				n := atomic.LoadInt32(&l.n)
+				if n == last2 {
+					break
+				}
+				last2 = n
+				time.Sleep(30*time.Millisecond + 4*delay)
+			}
 		}
 		l.log(Event{K: "barrier"})
 	}
